@@ -142,6 +142,7 @@ def run(res, tier):
             why = oracle.agree(("unroutable",) if spec.table[k][xi][0] == "unroutable" else spec.table[k][xi], oracle.expected(ast, x))
             if why:
                 res.violation({"kind": "life:reference", "text": t, "env": enc(x), "why": why})
+    c11.long_histories(res, tier)  # deep cyclic recompile histories: results must stay those of the published scheme
     xproc(res, tier)
     res.set("traces_validated_against_impl", res.cov.get("transitions", 0))
     res.set("bounds", {"slots": spec.slots, "depth": spec.depth, "texts": sorted(TEXTS), "inputs": len(spec.inputs)})
@@ -153,6 +154,8 @@ def run(res, tier):
 
 def replay(data):
     k = data.get("kind", "")
+    if k == "life:long":
+        return c11.replay_long(data)
     if k.startswith("life:") and "history" in data:
         spec = spec_for("thorough")
         spec.prepare()
